@@ -190,11 +190,28 @@ def run(ctx):
     pf = m.functions.get('_parse_strict_latex_spaces_dict')
     if pf is None:
         raise AnalysisError('anchor vanished: _parse_strict_latex_spaces_dict')
-    t = unparse(pf)
     p = pf.args.args[0].arg
-    ok_false = ("elif %s is False:\n        return _strict_latex_spaces_predef['macros']" % p) in t
-    ok_true = ("elif %s is True:\n        return dict([(k, True) for k in d.keys()])" % p) in t
-    ok_none = ("if %s is None:\n        return d" % p) in t
+    from .. import symex
+    ok_false = ok_true = ok_none = False
+    for cs in symex.return_cases(pf):
+        facts = symex.facts_of(cs.conds)
+        v = cs.sub
+        if (p + ' is False', True) in facts:
+            ok_false = unparse(v).replace('"', "'") == "_strict_latex_spaces_predef['macros']"
+        elif (p + ' is True', True) in facts:
+            comp = v.args[0] if isinstance(v, ast.Call) and call_name(v) == 'dict' and v.args else v
+            if isinstance(comp, (ast.ListComp, ast.GeneratorExp)) and isinstance(comp.elt, ast.Tuple) and \
+                    len(comp.elt.elts) == 2:
+                kx, vx = comp.elt.elts
+            elif isinstance(comp, ast.DictComp):
+                kx, vx = comp.key, comp.value
+            else:
+                kx = vx = None
+            ok_true = vx is not None and isinstance(vx, ast.Constant) and vx.value is True and \
+                len(comp.generators) == 1 and unparse(kx) == unparse(comp.generators[0].target) and \
+                unparse(comp.generators[0].iter) in ('d.keys()', 'd', 'd.items()') and not comp.generators[0].ifs
+        elif (p + ' is None', True) in facts:
+            ok_none = isinstance(v, ast.Dict) or unparse(v) == 'd'
     dflt = None
     for s in iter_own(pf):
         if isinstance(s, ast.Assign) and unparse(s.targets[0]) == 'd' and isinstance(s.value, ast.Dict):
@@ -381,14 +398,19 @@ def run(ctx):
     mac = dm.functions.get('make_accented_char')
     if mac is None:
         raise AnalysisError('anchor vanished: make_accented_char')
-    norm = [c for c in ast.walk(mac) if isinstance(c, ast.Call) and call_name(c) == 'normalize']
+    # the composition may live in make_accented_char itself or in a module-level helper it calls
+    acc_scope = [mac] + [dm.functions[c_.func.id] for c_ in ast.walk(mac) if isinstance(c_, ast.Call)
+                         and isinstance(c_.func, ast.Name) and c_.func.id in dm.functions
+                         and '.' not in c_.func.id and dm.functions[c_.func.id] is not mac]
+    norm = [c for f_ in acc_scope for c in ast.walk(f_) if isinstance(c, ast.Call) and call_name(c) == 'normalize']
     ok = len(norm) == 1 and isinstance(norm[0].args[0], ast.Constant) and norm[0].args[0].value == 'NFC'
     ctx.decide('R03g', ok, dm, norm[0] if norm else mac, "unicodedata.normalize('NFC', base + combining)",
                'accented characters are composed with %s instead of NFC: compatibility normalisation '
                'changes the base symbol (e.g. the phi / epsilon variants) when it is accented'
                % (short(norm[0]) if norm else 'no normalisation'), construct='make_accented_char: normal form')
     t = unparse(mac)
-    ok = "LATIN SMALL LETTER DOTLESS I" in mac_src(dm, mac) and "LATIN SMALL LETTER DOTLESS J" in mac_src(dm, mac)
+    srcs = ''.join(mac_src(dm, f_) for f_ in acc_scope)
+    ok = "LATIN SMALL LETTER DOTLESS I" in srcs and "LATIN SMALL LETTER DOTLESS J" in srcs
     ctx.decide('R03g', ok, dm, mac, 'dotless i/j replaced before composing',
                'dotless i/j are no longer replaced before the accent is applied',
                construct='make_accented_char: dotless letters', trivial=True)
